@@ -24,14 +24,15 @@
 //@ rewrite LOOP "for n in neighbors.into_iter() {" => "for t in 0..neighbors.len() /*INVP*/ { let n = neighbors[t];   /* for n in neighbors.into_iter() */"
 //@ insert LOOP before "search_queue.extend(" : let ghost nb0 = neighbors@; proof { parent = Seq::new(parent.len(), |k: int| if 0 <= k < n0 && nb0.contains(k as usize) { i as int } else { parent[k] }); }
 //@ insert LOOP after "cluster_memberships[i] = Some(current_cluster_id);" : proof { seeds = seeds.push(i as int); assert forall|a: int| 0 <= a < search_queue.q@.len() implies parent[(#[trigger] search_queue.q@[a]) as int] == i as int by { assert(nb0.contains(nb0[a])); } }
-//@ insert LOOP after "cluster_memberships[candidate_idx] = Some(current_cluster_id);" : proof { let q1 = search_queue.q@; assert(q0[0] == candidate_idx); assert forall|a: int| 0 <= a < q1.len() implies #[trigger] q1[a] == q0[a + 1] by {} assert forall|k: int| 0 <= k < n0 && #[trigger] search_found@[k] implies q1.contains(k as usize) || cluster_memberships@[k] is Some by { if k != candidate_idx as int && !(m0[k] is Some) { assert(q0.contains(k as usize)); let a = choose|a: int| 0 <= a < q0.len() && q0[a] == k as usize; assert(a != 0); assert(q1[a - 1] == k as usize); } } assert(queue_ok(q1, cluster_memberships@, search_found@, parent, n0, mp, current_cluster_id as int)); assert(base_ok(cluster_memberships@, parent, n0, mp)); }
-//@ insert LOOP after "    search_found[n] = true;" : proof { let q2 = search_queue.q@; assert(q2[q2.len() - 1] == n); assert forall|k: int| 0 <= k < n0 && #[trigger] search_found@[k] implies q2.contains(k as usize) || cluster_memberships@[k] is Some by { if k == n as int { assert(q2[q2.len() - 1] == k as usize); } else if !(cluster_memberships@[k] is Some) { assert(qp.contains(k as usize)); let a = choose|a: int| 0 <= a < qp.len() && qp[a] == k as usize; assert(q2[a] == k as usize); } } }
+//@ insert LOOP after "cluster_memberships[candidate_idx] = Some(current_cluster_id);" : proof { let q1 = search_queue.q@; assert(q0[0] == candidate_idx); assert forall|a: int| 0 <= a < q1.len() implies #[trigger] q1[a] == q0[a + 1] by {} assert forall|k: int| 0 <= k < n0 && #[trigger] search_found@[k] implies q1.contains(k as usize) || cluster_memberships@[k] is Some by { if k != candidate_idx as int && !(m0[k] is Some) { assert(q0.contains(k as usize)); let a = choose|a: int| 0 <= a < q0.len() && q0[a] == k as usize; assert(a != 0); assert(q1[a - 1] == k as usize); } } assert(queue_ok(q1, cluster_memberships@, search_found@, parent, n0, mp, current_cluster_id as int)); assert(base_ok(cluster_memberships@, parent, n0, mp)); assert forall|q: int, p: int| #![trigger nbr(q, p)] 0 <= q < n0 && 0 <= p < n0 && cluster_memberships@[q] == Some(current_cluster_id) && core(q, mp) && nbr(q, p) implies cluster_memberships@[p] is Some || q1.contains(p as usize) || (q == candidate_idx as int && exists|a: int| 0 <= a < neighbors@.len() && #[trigger] neighbors@[a] == p as usize) by { if !(cluster_memberships@[p] is Some) { if q != candidate_idx as int || m0[q] is Some { assert(m0[q] == Some(current_cluster_id)); assert(q0.contains(p as usize)); let a = choose|a: int| 0 <= a < q0.len() && q0[a] == p as usize; assert(a != 0); assert(q1[a - 1] == p as usize); } else { assert(m0[p] is None && p != candidate_idx as int); assert(neighbors@.contains(p as usize)); let a = choose|a: int| 0 <= a < neighbors@.len() && neighbors@[a] == p as usize; assert(neighbors@[a] == p as usize); } } } }
+//@ insert LOOP after "    search_found[n] = true;" : proof { let q2 = search_queue.q@; assert(q2[q2.len() - 1] == n); assert forall|k: int| 0 <= k < n0 && #[trigger] search_found@[k] implies q2.contains(k as usize) || cluster_memberships@[k] is Some by { if k == n as int { assert(q2[q2.len() - 1] == k as usize); } else if !(cluster_memberships@[k] is Some) { assert(qp.contains(k as usize)); let a = choose|a: int| 0 <= a < qp.len() && qp[a] == k as usize; assert(q2[a] == k as usize); } } assert forall|x: usize| qp.contains(x) implies q2.contains(x) by { let a = choose|a: int| 0 <= a < qp.len() && qp[a] == x; assert(q2[a] == x); } }
+//@ insert LOOP before "if !search_found[n] {" : let ghost qb = search_queue.q@; proof { assert forall|q: int, p: int| #![trigger nbr(q, p)] 0 <= q < n0 && 0 <= p < n0 && cluster_memberships@[q] == Some(current_cluster_id) && core(q, mp) && nbr(q, p) implies cluster_memberships@[p] is Some || qb.contains(p as usize) || p == n as int || (q == candidate_idx as int && exists|a: int| t + 1 <= a < neighbors@.len() && #[trigger] neighbors@[a] == p as usize) by { if !(cluster_memberships@[p] is Some) && !qb.contains(p as usize) { let a = choose|a: int| t <= a < neighbors@.len() && #[trigger] neighbors@[a] == p as usize; if a == t { assert(neighbors@[t as int] == n); assert(p == n as int); } else { assert(t + 1 <= a && neighbors@[a] == p as usize); } } } }
 //@ insert LOOP before "search_queue.push_back(n);" : let ghost qp = search_queue.q@;
 //@ insert LOOP after "search_queue.push_back(n);" : proof { parent = parent.update(n as int, candidate_idx as int); }
-//@ rewrite LOOP "/*INVO*/" => "invariant n_obs == n0, nn.n@ == n0, observations.n@ == n0, mp == self.min_points, cluster_memberships@.len() == n0, search_found@.len() == n0, (forall|k: int| 0 <= k < n0 && #[trigger] search_found@[k] ==> cluster_memberships@[k] is Some), search_queue.q@.len() == 0, base_ok(cluster_memberships@, parent, n0, mp), labels_ok(cluster_memberships@, seeds, n0, current_cluster_id as int), current_cluster_id <= i_next <= n0, (forall|p: int| 0 <= p < i_next ==> (#[trigger] cluster_memberships@[p]) is Some || !core(p, mp)),"
+//@ rewrite LOOP "/*INVO*/" => "invariant n_obs == n0, nn.n@ == n0, observations.n@ == n0, mp == self.min_points, cluster_memberships@.len() == n0, search_found@.len() == n0, (forall|k: int| 0 <= k < n0 && #[trigger] search_found@[k] ==> cluster_memberships@[k] is Some), search_queue.q@.len() == 0, base_ok(cluster_memberships@, parent, n0, mp), labels_ok(cluster_memberships@, seeds, n0, current_cluster_id as int), current_cluster_id <= i_next <= n0, (forall|p: int| 0 <= p < i_next ==> (#[trigger] cluster_memberships@[p]) is Some || !core(p, mp)), sym(), closed_ok(cluster_memberships@, n0, mp, current_cluster_id as int), same_ok(cluster_memberships@, n0, mp),"
 //@ rewrite LOOP "/*INVF*/" => "invariant search_found@.len() == n0, cluster_memberships@.len() == n0, (forall|a: int| 0 <= a < neighbors@.len() ==> (#[trigger] neighbors@[a]) < n0), (forall|k: int| 0 <= k < n0 && #[trigger] search_found@[k] ==> cluster_memberships@[k] is Some || neighbors@.contains(k as usize)),"
-//@ rewrite LOOP "/*INVW*/" => "invariant n_obs == n0, nn.n@ == n0, observations.n@ == n0, mp == self.min_points, i < n0, i_next == i + 1, cluster_memberships@.len() == n0, search_found@.len() == n0, base_ok(cluster_memberships@, parent, n0, mp), labels_ok(cluster_memberships@, seeds, n0, current_cluster_id + 1), current_cluster_id + 1 <= i_next, queue_ok(search_queue.q@, cluster_memberships@, search_found@, parent, n0, mp, current_cluster_id as int), (forall|p: int| 0 <= p < i_next ==> (#[trigger] cluster_memberships@[p]) is Some || !core(p, mp)),"
-//@ rewrite LOOP "/*INVP*/" => "invariant nn.n@ == n0, mp == self.min_points, candidate_idx < n0, cluster_memberships@.len() == n0, search_found@.len() == n0, parent.len() == n0, core(candidate_idx as int, mp), cluster_memberships@[candidate_idx as int] == Some(current_cluster_id), (forall|a: int| 0 <= a < neighbors@.len() ==> (#[trigger] neighbors@[a]) < n0 && nbr(candidate_idx as int, neighbors@[a] as int) && (cluster_memberships@[neighbors@[a] as int] is None || neighbors@[a] == candidate_idx)), base_ok(cluster_memberships@, parent, n0, mp), queue_ok(search_queue.q@, cluster_memberships@, search_found@, parent, n0, mp, current_cluster_id as int),"
+//@ rewrite LOOP "/*INVW*/" => "invariant n_obs == n0, nn.n@ == n0, observations.n@ == n0, mp == self.min_points, i < n0, i_next == i + 1, cluster_memberships@.len() == n0, search_found@.len() == n0, base_ok(cluster_memberships@, parent, n0, mp), labels_ok(cluster_memberships@, seeds, n0, current_cluster_id + 1), current_cluster_id + 1 <= i_next, queue_ok(search_queue.q@, cluster_memberships@, search_found@, parent, n0, mp, current_cluster_id as int), (forall|p: int| 0 <= p < i_next ==> (#[trigger] cluster_memberships@[p]) is Some || !core(p, mp)), sym(), closed_ok(cluster_memberships@, n0, mp, current_cluster_id as int), cur_closed(cluster_memberships@, search_queue.q@, n0, mp, current_cluster_id as int, -1, Seq::<usize>::empty(), 0), same_ok(cluster_memberships@, n0, mp),"
+//@ rewrite LOOP "/*INVP*/" => "invariant n_obs == n0, nn.n@ == n0, mp == self.min_points, candidate_idx < n0, cluster_memberships@.len() == n0, search_found@.len() == n0, parent.len() == n0, core(candidate_idx as int, mp), cluster_memberships@[candidate_idx as int] == Some(current_cluster_id), (forall|a: int| 0 <= a < neighbors@.len() ==> (#[trigger] neighbors@[a]) < n0 && nbr(candidate_idx as int, neighbors@[a] as int) && (cluster_memberships@[neighbors@[a] as int] is None || neighbors@[a] == candidate_idx)), base_ok(cluster_memberships@, parent, n0, mp), queue_ok(search_queue.q@, cluster_memberships@, search_found@, parent, n0, mp, current_cluster_id as int), sym(), m0.len() == n0, cluster_memberships@ == m0.update(candidate_idx as int, Some(current_cluster_id)), (forall|j: int| 0 <= j < n0 && nbr(candidate_idx as int, j) && (#[trigger] m0[j]) is None && j != candidate_idx ==> neighbors@.contains(j as usize)), closed_ok(cluster_memberships@, n0, mp, current_cluster_id as int), cur_closed(cluster_memberships@, search_queue.q@, n0, mp, current_cluster_id as int, candidate_idx as int, neighbors@, t as int), same_ok(cluster_memberships@, n0, mp),"
 //@ expect-fail vacuity_guard_dbscan
 use vstd::prelude::*;
 verus! {
@@ -93,6 +94,22 @@ pub open spec fn queue_ok(q: Seq<usize>, m: Seq<Option<usize>>, sf: Seq<bool>, p
             && 0 <= parent[q[a] as int] < n && core(parent[q[a] as int], mp) && nbr(parent[q[a] as int], q[a] as int) && m[parent[q[a] as int]] == Some(cur as usize)
     &&& forall|k: int| 0 <= k < n && #[trigger] sf[k] ==> q.contains(k as usize) || m[k] is Some
 }
+// "a point is labelled exactly when it is a core point or lies within the tolerance of a core point": closure of the finished clusters ...
+pub open spec fn closed_ok(m: Seq<Option<usize>>, n: int, mp: usize, lim: int) -> bool {
+    forall|q: int, p: int| #![trigger nbr(q, p)] 0 <= q < n && 0 <= p < n && m[q] is Some && m[q]->Some_0 < lim && core(q, mp) && nbr(q, p) ==> m[p] is Some
+}
+// ... and of the cluster under construction: what an expanded core point reaches is labelled or waits in the queue (for the candidate `c` that
+// is being expanded right now: or is among its neighbours not looked at yet)
+pub open spec fn cur_closed(m: Seq<Option<usize>>, qs: Seq<usize>, n: int, mp: usize, cur: int, c: int, nbrs: Seq<usize>, t: int) -> bool {
+    forall|q: int, p: int| #![trigger nbr(q, p)] 0 <= q < n && 0 <= p < n && m[q] == Some(cur as usize) && core(q, mp) && nbr(q, p)
+        ==> m[p] is Some || qs.contains(p as usize) || (q == c && exists|a: int| t <= a < nbrs.len() && #[trigger] nbrs[a] == p as usize)
+}
+// "two core points within the tolerance of each other carry the same label"
+pub open spec fn same_ok(m: Seq<Option<usize>>, n: int, mp: usize) -> bool {
+    forall|q: int, p: int| #![trigger nbr(q, p)] 0 <= q < n && 0 <= p < n && m[q] is Some && m[p] is Some && core(q, mp) && core(p, mp) && nbr(q, p) ==> m[q] == m[p]
+}
+// the tolerance test is symmetric (ASSUMED: the distance is a metric, the same index answers both queries)
+pub open spec fn sym() -> bool { forall|i: int, j: int| #![trigger nbr(i, j)] nbr(i, j) == nbr(j, i) }
 pub struct DbscanV { pub min_points: usize, pub tolerance: FT }
 impl DbscanV {
     // ---- find_neighbors, body extracted from /repo on every run: the count is the number of points within the tolerance (the point itself
@@ -110,14 +127,17 @@ impl DbscanV {
     // all-noise answer for zero-dimensional input) is dropped: `nn` is a parameter.  PARTIAL correctness: termination of the queue loop is not proved ----
     #[verifier::exec_allows_no_decreases_clause]
     pub fn transform(&self, observations: &ObsTok, nn: NnTok) -> (r: Vec<Option<usize>>)
-        requires nn.n@ == observations.n@,
+        requires nn.n@ == observations.n@, sym(),
         ensures r@.len() == observations.n@,
             // labels are 0..c-1 without gaps
             exists|c: int, seeds: Seq<int>| labels_ok(r@, seeds, observations.n@, c),
             // a labelled point is a core point or lies within the tolerance of a core point with the same label
             forall|p: int| 0 <= p < observations.n@ && (#[trigger] r@[p]) is Some ==> (core(p, self.min_points) || exists|q: int| 0 <= q < observations.n@ && core(q, self.min_points) && nbr(q, p) && #[trigger] r@[q] == r@[p]),
-            // every core point is labelled
+            // every core point is labelled, and so is every point within the tolerance of a core point
             forall|p: int| 0 <= p < observations.n@ && core(p, self.min_points) ==> (#[trigger] r@[p]) is Some,
+            forall|q: int, p: int| #![trigger nbr(q, p)] 0 <= q < observations.n@ && 0 <= p < observations.n@ && core(q, self.min_points) && nbr(q, p) ==> r@[p] is Some,
+            // two core points within the tolerance of each other carry the same label
+            same_ok(r@, observations.n@, self.min_points),
     {
         let ghost n0 = observations.n@;
         let ghost mp = self.min_points;
